@@ -370,12 +370,12 @@ def run(ctx):
     try:
         scen = _scenarios(ctx.tier)
         # replayed at a fraction of the budget (C18, sanitizer build): two scenarios per shard
-        limit = 2 if getattr(ctx, "factor", 1.0) != 1.0 else None
+        limit = (6 if ctx.tier == "quick" else 24) if getattr(ctx, "factor", 1.0) != 1.0 else None
         for i, (shape, op, target) in enumerate(scen):
             if not ctx.mine(i):
                 continue
             if limit is not None:
-                if limit == 0 or (i // ctx.nshards) % 5 != ctx.seed % 5:
+                if limit == 0 or (i // ctx.nshards) % 2 != ctx.seed % 2:
                     continue
                 limit -= 1
             if not ctx.begin("gcp:%s:%s:%s" % (shape, op[0], target),
